@@ -2,6 +2,7 @@ import DoitModel.Proofs.ActFrame
 import DoitModel.Proofs.ActTask
 import DoitModel.Proofs.ActFwd
 import DoitModel.Proofs.ActMode
+import DoitModel.Proofs.ActModeBuf
 /-! # C17 — action outcomes are classified exactly and output is captured intact
 
 Property theorems only (model: `Model/Act.lean`; helpers: `Proofs/Act.lean`, `Proofs/ActFrame.lean`,
@@ -400,6 +401,24 @@ theorem nocapture_passthrough_init (a : Act) (on : Bool) (body : Mode.Forest)
   have := nocapture_passthrough a on body Fwd.St.init hn rfl
   simpa [Fwd.St.init, Fwd.own] using this
 
+/-- **Captured intact in both modes at once**: for every scenario forest mixing capturing and non-capturing
+    executions to any depth (distinct ids), from the initial state: the cell is the original stream again, no saved
+    stream was missing, every *capturing* execution ends with `out` holding exactly its own writes in order among
+    the tokens of its buffer (text forwarded by nested executions -- live copies of capturing ones, everything of
+    non-capturing ones -- may be interleaved, never lost or reordered), and every *non-capturing* execution ends
+    with `out = None`. -/
+theorem captured_intact_mode (f : Mode.Forest) (hn : (Mode.started (Mode.flatten none f)).Nodup) :
+    (Mode.run Fwd.St.init (Mode.flatten none f)).cell = .orig ∧
+    (Mode.run Fwd.St.init (Mode.flatten none f)).unbound = false ∧
+    (∀ b, b ∈ Mode.reads (Mode.flatten none f) →
+      ∃ l, (Mode.run Fwd.St.init (Mode.flatten none f)).out b = some l ∧
+        Fwd.own b l = Mode.writesOf b (Mode.flatten none f)) ∧
+    (∀ b, b ∉ Mode.reads (Mode.flatten none f) → (Mode.run Fwd.St.init (Mode.flatten none f)).out b = none) := by
+  have F := Mode.frame f none Fwd.St.init hn
+  have B := Mode.bframe f none Fwd.St.init hn (by intro b _; exact ⟨rfl, by simp [Fwd.St.init, Fwd.bufsOf]⟩)
+    (by intro a ha; cases ha)
+  exact ⟨F.cell, F.unbound, B.outs, fun b hb => Mode.out_only_read _ _ b hb⟩
+
 /-- the machine with the live copy (`restore_nested_live`) is the all-capture fragment of `Mode` -/
 theorem mode_extends_fwd (f : Fwd.Forest) (o : Option Act) (s : Fwd.St) :
     Mode.run s (Mode.flatten o (Mode.ofFwdForest f)) = Fwd.run s (Fwd.flatten o f) := by
@@ -529,5 +548,16 @@ example : (cmdExec false .no (some 1) 0 ['a'] []).values = [(1, .none)] ∧
 
 example : pyExec false (pyBody true false [.write, .flush, .print] (.rStr ['x']))
     = pyExec false (pyBody false true [.write, .flush, .print] (.rStr ['x'])) := by decide
+
+/-- `captured_intact_mode` is not vacuous: a capturing, live action 0 runs a non-capturing action 1 which runs a
+    capturing quiet action 2 -/
+example :
+    let f : Mode.Forest := .exec 0 true true (.write 1 (.exec 1 false false (.write 2 (.exec 2 false true (.write 3 .nil) (.write 4 .nil))) (.write 5 .nil))) .nil
+    (Mode.started (Mode.flatten none f)).Nodup ∧ Mode.reads (Mode.flatten none f) = [2, 0] ∧
+    (Mode.run Fwd.St.init (Mode.flatten none f)).out 0 = some [(0, 1), (1, 2), (1, 4), (0, 5)] ∧
+    (Mode.run Fwd.St.init (Mode.flatten none f)).out 1 = none ∧
+    (Mode.run Fwd.St.init (Mode.flatten none f)).out 2 = some [(2, 3)] ∧
+    (Mode.run Fwd.St.init (Mode.flatten none f)).origLog = [(0, 1), (1, 2), (1, 4), (0, 5)] := by
+  decide
 
 end DoitModel.C17
